@@ -124,6 +124,8 @@ class Recorder:
         self.last_failure = None
 
     def tag(self, key, n=1):
+        if "/decision=" in key:
+            key = key.split("/decision=")[0] + "/decision-order"
         self.hist[key] = self.hist.get(key, 0) + n
 
     def record(self, case, verdict):
